@@ -112,6 +112,20 @@ Samp(k, S) == IF SampleK = 0 \/ Cardinality(S) <= k THEN S ELSE RandomSubset(k, 
 KindCols(cols, k) == {c \in SetOf(cols) : Kind[c] = k}
 KeyCols(cols) == {c \in SetOf(cols) : Kind[c] # "b"}
 
+\* Dependency-directed generation: columns written by the previous step are preferred as keys, sources
+\* and operands of the next step, so that interactions between consecutive steps (builder merges, SQL
+\* extend merging, column pruning) are exercised far more often than uniform sampling would.
+LastT == IF Len(prog) = 0 THEN {}
+         ELSE LET st == prog[Len(prog)] IN
+              IF st[1] \in {"extend", "wextend", "project"} THEN {st[2][i][1] : i \in 1..Len(st[2])}
+              ELSE IF st[1] = "rename" THEN {st[2][i][1] : i \in 1..Len(st[2])}
+              ELSE {}
+HasT(q) == \E i \in 1..Len(q) : q[i] \in LastT
+ExprT(e) == ColsOfE(e) \cap LastT # {}
+AsgT(a) == a[3] \in LastT \/ a[1] \in LastT
+\* k random members plus (in simulation) up to two members that touch the previous step's outputs
+Bias(k, S, P(_)) == IF SampleK = 0 THEN S ELSE Samp(k, S) \cup Samp(2, {x \in S : P(x)})
+
 Conds(N, Bc) ==
   {<<"b", cmp, C(c), K(1)>> : cmp \in {">", "=="}, c \in N} \cup {C(c) : c \in Bc}
 ArithExprs(N, Bc) ==
@@ -152,9 +166,9 @@ ExtendSteps(cols) ==
   LET N  == KindCols(cols, "n")
       Bc == KindCols(cols, "b")
       S  == KindCols(cols, "s")
-      AE == Samp(3, ArithExprs(N, Bc))
-      BE == Samp(3, BoolExprs(N, S, Bc))
-      NT == IF Level = 1 THEN {"z"} ELSE Samp(2, {"z", "w"} \cup N)
+      AE == Bias(3, ArithExprs(N, Bc), ExprT)
+      BE == Bias(3, BoolExprs(N, S, Bc), ExprT)
+      NT == IF Level = 1 THEN {"z"} \cup N ELSE Samp(2, {"z", "w"} \cup N) \cup Samp(1, LastT \cap N)
       BT == IF Level = 1 THEN {"p"} ELSE Samp(1, {"p", "q"})
   IN {<<"extend", <<<<t, e>>>>>> : t \in NT, e \in AE}
      \cup {<<"extend", <<<<t, e>>>>>> : t \in BT, e \in BE}
@@ -170,9 +184,9 @@ OrdAsg(N) ==
   \cup {<<"w", "_row_number", "", 0>>}
 WExtendSteps(cols) ==
   LET N == KindCols(cols, "n") KC == KeyCols(cols) IN
-  {<<"wextend", <<a>>, p, <<>>, <<>>>> : a \in Samp(3, WinAsg(N)), p \in Samp(3, KeyLists(KC, Level))}
-  \cup {<<"wextend", <<a>>, p, o, r>> : a \in Samp(3, OrdAsg(N)), p \in Samp(2, KeyLists(KC, 1)),
-           o \in Samp(2, KeyLists(KC, Level) \ {<<>>}), r \in Samp(2, {<<>>} \cup {<<c>> : c \in KC})}
+  {<<"wextend", <<a>>, p, <<>>, <<>>>> : a \in Bias(3, WinAsg(N), AsgT), p \in Bias(3, KeyLists(KC, Level), HasT)}
+  \cup {<<"wextend", <<a>>, p, o, r>> : a \in Bias(3, OrdAsg(N), AsgT), p \in Bias(2, KeyLists(KC, 1), HasT),
+           o \in Bias(2, KeyLists(KC, Level) \ {<<>>}, HasT), r \in Samp(2, {<<>>} \cup {<<c>> : c \in KC})}
   \cup (IF Level = 1 THEN {}
         ELSE {<<"wextend", <<<<"w", "sum", c, 0>>, <<"z", "max", c, 0>>>>, p, <<>>, <<>>>> :
                  c \in Samp(1, N), p \in Samp(2, KeyLists(KC, 1))}
@@ -183,15 +197,15 @@ ProjAsg(N) ==
   \cup {<<"z", "_size", "">>}
 ProjectSteps(cols) ==
   LET N == KindCols(cols, "n") KC == KeyCols(cols) IN
-  {<<"project", <<a>>, g>> : a \in Samp(3, ProjAsg(N)), g \in Samp(3, KeyLists(KC, Level))}
+  {<<"project", <<a>>, g>> : a \in Bias(3, ProjAsg(N), AsgT), g \in Bias(3, KeyLists(KC, Level), HasT)}
   \cup {<<"project", <<>>, g>> : g \in Samp(1, KeyLists(KC, Level) \ {<<>>})}
   \cup (IF Level = 1 THEN {}
         ELSE {<<"project", <<<<"z", "sum", c>>, <<"w", "_size", "">>>>, g>> : c \in Samp(1, N), g \in Samp(2, KeyLists(KC, 1))})
 SelectRowsSteps(cols) ==
-  {<<"select_rows", e>> : e \in Samp(4, BoolExprs(KindCols(cols, "n"), KindCols(cols, "s"), KindCols(cols, "b")))}
+  {<<"select_rows", e>> : e \in Bias(4, BoolExprs(KindCols(cols, "n"), KindCols(cols, "s"), KindCols(cols, "b")), ExprT)}
 ColumnSteps(cols) ==
-  {<<"select_columns", k>> : k \in Samp(2, KeyLists(SetOf(cols), 2) \ {<<>>})}
-  \cup {<<"drop_columns", k>> : k \in Samp(2, KeyLists(SetOf(cols), Level) \ {<<>>})}
+  {<<"select_columns", k>> : k \in Bias(2, KeyLists(SetOf(cols), 2) \ {<<>>}, HasT)}
+  \cup {<<"drop_columns", k>> : k \in Bias(2, KeyLists(SetOf(cols), Level) \ {<<>>}, HasT)}
   \cup (IF Level = 1 THEN {}
         ELSE {<<"rename", <<<<q[1], q[2]>>>>>> :
                  q \in Samp(2, {r \in {"x2", "h2"} \X SetOf(cols) : Kind[r[1]] = Kind[r[2]]})}
@@ -199,7 +213,7 @@ ColumnSteps(cols) ==
                       p \in Samp(1, {q \in Pairs(SetOf(cols)) : Kind[q[1]] = Kind[q[2]]})})
 OrderSteps(cols) ==
   LET KC == KeyCols(cols) IN
-  {<<"order_rows", k, r, lim>> : k \in Samp(2, KeyLists(KC, Level) \ {<<>>}),
+  {<<"order_rows", k, r, lim>> : k \in Bias(2, KeyLists(KC, Level) \ {<<>>}, HasT),
        r \in Samp(2, {<<>>} \cup {<<c>> : c \in KC}), lim \in (IF Level = 1 THEN {0, 1} ELSE {0, 1, 2})}
 StackSteps ==
   {<<"table", t>> : t \in TabNames} \cup {<<"dup">>}
